@@ -303,6 +303,10 @@ for _pid in ('C13', 'C05'):
 for _pid in ('C05', 'C13', 'C06'):
     if 'OtterVerif.Props.C05Maint' not in PROPS[_pid]['modules']:
         PROPS[_pid]['modules'].append('OtterVerif.Props.C05Maint')
+# size policy, timer wheel and table in one joint state (insertion with eviction)
+for _pid in ('C05', 'C13'):
+    if 'OtterVerif.Props.C05All' not in PROPS[_pid]['modules']:
+        PROPS[_pid]['modules'].append('OtterVerif.Props.C05All')
 for _pid, _mods in PINS.items():
     for _m in _mods:
         _name = 'OtterVerif.Pin.' + _m
